@@ -77,6 +77,10 @@ int tcp_cache::fetch(	std::string const &key,
 	ptr+=h.operations.data.data_len;
 
 	int len=h.operations.data.triggers_len;
+	// the reply carries the complete trigger set of the current value, what the
+	// caller collected for an outdated local copy does not belong to it
+	if(tags)
+		tags->clear();
 	while(len>0) {
 		std::string tag;
 		unsigned tmp_len=strlen(ptr);
